@@ -5,7 +5,7 @@
    InplaceXlate = xlate, find = find_all/find_first); printer, reach and the tree classes: C32/Spec_C32.v. *)
 From Coq Require Import String.
 From Coq Require Import NArith List Bool.
-From F8 Require Import C32.XmlBase C32.Xml C32.Spec_C32 C32.XmlProofs.
+From F8 Require Import C32.XmlBase C32.Xml C32.Spec_C32 C32.XmlProofs C32.XmlTreeProofs.
 Import ListNotations.
 Local Open Scope N_scope.
 
@@ -48,3 +48,43 @@ Theorem c32_find_exact : forall (root cur : el) (a : addr) (path : str) (q : opt
   find_first (find_fuel path) root cur a path q = hd_error (reach_path root cur a path q).
 Proof. exact c32_find_exact_lemma. Qed.
 Print Assumptions c32_find_exact.
+
+(* The tree round trip (stretch goal, fully proved): for EVERY element tree t of any width and any
+   depth up to MaxDepth = 128 whose tags are names [A-Za-z0-9_.:-]+ other than "xi:include", whose
+   attribute keys are pairwise different names other than "docpath", whose attribute values and text are
+   over all bytes except NUL, LF, CR with no '&' followed by something reference-shaped, and whose text,
+   if present, has a character other than blank/tab (tree_ok, a boolean predicate of Spec_C32.v), the
+   modelled parser applied to the printed document returns exactly t: same tags, same attribute lists
+   with references decoded, same text, same children in the same order (and never runs out of fuel). *)
+Theorem c32_tree_partial : forall t : el, tree_ok 0 t = true -> parse_doc (print_el t) = Ok t.
+Proof. exact c32_tree_partial_lemma. Qed.
+Print Assumptions c32_tree_partial.
+
+(* The two remaining hypotheses of tree_ok are needed: blank-only text is dropped, an attribute named
+   docpath is dropped. *)
+Theorem c32_blank_text_refuted :
+  parse_doc (print_el (El (bs "a") None (Some (bs "  ")) [] [])) = Ok (El (bs "a") None None [] []).
+Proof. exact c32_blank_text_refuted_lemma. Qed.
+Print Assumptions c32_blank_text_refuted.
+
+Theorem c32_docpath_refuted :
+  parse_doc (print_el (El (bs "a") None None [(bs "docpath", bs "x"); (bs "e", bs "1")] [])) =
+  Ok (El (bs "a") None None [(bs "e", bs "1")] []).
+Proof. exact c32_docpath_refuted_lemma. Qed.
+Print Assumptions c32_docpath_refuted.
+
+(* Non-vacuity: a three-level tree with repeated sibling tags, all five markup characters and
+   near-references in values and text meets every hypothesis above; its printed form, its parse and
+   three path lookups are as stated. *)
+Theorem c32_nonvacuous :
+  tree_ok 0 sample_tree = true /\
+  attrs_ok (el_attrs sample_tree) = true /\
+  find_tags_ok sample_tree = true /\
+  print_el sample_tree =
+    bs "<cfg name=""x&quot;y&apos;z&gt;&amp;"" v.1=""&amp;l; &amp;#; &amp;lt""> a&lt;b &amp; c&gt; <item id=""1""/><ns:other>&apos;</ns:other><item id=""2"">t<leaf-1/><item/></item></cfg>" /\
+  parse_doc (print_el sample_tree) = Ok sample_tree /\
+  find_all (find_fuel (bs "cfg/item")) sample_tree sample_tree [] (bs "cfg/item") None = [[0%nat]; [2%nat]] /\
+  find_all (find_fuel (bs "//cfg/item/item")) sample_tree sample_tree [] (bs "//cfg/item/item") None = [[2%nat; 1%nat]] /\
+  find_first (find_fuel (bs "cfg/item")) sample_tree sample_tree [] (bs "cfg/item") (Some (bs "id", bs "2")) = Some [2%nat].
+Proof. exact c32_nonvacuous_lemma. Qed.
+Print Assumptions c32_nonvacuous.
